@@ -1265,3 +1265,126 @@ func ruleR18_9(w *World, r *Report) {
 		r.Unk("R18.9", "OPB printers", "-", "no whole-problem printer in the OPB family")
 	}
 }
+
+// ---------- R14.4: a backward walk over the trail cannot run off its start ----------
+
+func ruleR14_4(w *World, r *Report) {
+	r.Rule("R14.4", "in the conflict analysers, a loop that walks the trail backwards (index decremented, then used) either tests the index against 0 or searches for a member of a marked set whose remaining population is kept positive by the enclosing loop (`for nbLvl > 1`)", 2)
+	n := 0
+	for _, fn := range conflictAnalysers(w) {
+		for _, h := range loopHeaders(fn) {
+			body := loopBlocks(fn, h)
+			// a decrementing index used on the trail inside this loop, the decrement being in this loop too
+			var dec *ssa.BinOp
+			for b := range body {
+				for _, ins := range b.Instrs {
+					bo, ok := ins.(*ssa.BinOp)
+					if !ok || bo.Op != token.SUB {
+						continue
+					}
+					if k, isK := constInt(bo.Y); !isK || k != 1 {
+						continue
+					}
+					if _, isPhi := bo.X.(*ssa.Phi); !isPhi || typeShort(bo.Type()) != "int" {
+						continue
+					}
+					onTrail := func(idx ssa.Value) bool {
+						for _, ref := range *idx.Referrers() {
+							if ia, isIA := ref.(*ssa.IndexAddr); isIA && ia.Index == idx {
+								if _, isT := isFieldLoad(ia.X, "solver.Solver", "trail"); isT {
+									return true
+								}
+							}
+						}
+						return false
+					}
+					if onTrail(bo) {
+						dec = bo
+					}
+					for _, ref := range *bo.Referrers() {
+						// the decremented value flows into the loop's index phi, which is what indexes the trail
+						if ph, isPhi := ref.(*ssa.Phi); isPhi && body[ph.Block()] && onTrail(ph) {
+							dec = bo
+						}
+					}
+				}
+			}
+			if dec == nil {
+				continue
+			}
+			// innermost loop containing the decrement only
+			inner := true
+			for _, h2 := range loopHeaders(fn) {
+				if h2 != h && body[h2] && loopBlocks(fn, h2)[dec.Block()] {
+					inner = false
+				}
+			}
+			if !inner {
+				continue
+			}
+			n++
+			key := fmt.Sprintf("%s backward trail walk #%d", w.FuncName(fn), n)
+			// evidence A: the index (or its phi) is compared with 0 somewhere in the loop
+			evid := ""
+			for b := range body {
+				for _, ins := range b.Instrs {
+					bo, ok := ins.(*ssa.BinOp)
+					if !ok {
+						continue
+					}
+					switch bo.Op {
+					case token.GEQ, token.GTR, token.LSS, token.LEQ:
+						if (bo.X == ssa.Value(dec) || bo.X == dec.X) && isConstIntVal(bo.Y) {
+							evid = "the index is tested against a constant"
+						}
+					}
+				}
+			}
+			// evidence B: the walk looks for a marked variable and the enclosing loop keeps the number of marked ones above 1
+			if evid == "" {
+				memb := false
+				for b := range body {
+					iff, isIf := b.Instrs[len(b.Instrs)-1].(*ssa.If)
+					if !isIf {
+						continue
+					}
+					c := iff.Cond
+					if u, isU := c.(*ssa.UnOp); isU && u.Op == token.NOT {
+						c = u.X
+					}
+					if ld, isL := c.(*ssa.UnOp); isL && ld.Op == token.MUL {
+						if ia, isIA := ld.X.(*ssa.IndexAddr); isIA && typeShort(ia.X.Type()) == "[]bool" {
+							memb = true
+						}
+					}
+				}
+				counter := false
+				for _, h2 := range loopHeaders(fn) {
+					if h2 == h || !loopBlocks(fn, h2)[h] {
+						continue
+					}
+					if iff, isIf := h2.Instrs[len(h2.Instrs)-1].(*ssa.If); isIf {
+						if bo, isB := iff.Cond.(*ssa.BinOp); isB && bo.Op == token.GTR {
+							if _, isPhi := bo.X.(*ssa.Phi); isPhi && isConstIntVal(bo.Y) {
+								counter = true
+							}
+						}
+					}
+				}
+				if memb && counter {
+					evid = "the walk searches a marked variable and the enclosing loop runs only while more than one is left"
+				}
+			}
+			r.Check(evid != "", "R14.4", key, w.InstrPos(dec), evid,
+				"the index is decremented and used on the trail without any test against 0 and without a population argument: when no earlier literal satisfies the stopping condition the walk reads trail[-1] and panics")
+		}
+	}
+	if n == 0 {
+		r.Unk("R14.4", "trail walks", "-", "no backward walk over the trail in a conflict analyser")
+	}
+}
+
+func isConstIntVal(v ssa.Value) bool {
+	_, ok := constInt(v)
+	return ok
+}
